@@ -39,7 +39,7 @@ def run(tier):
     bres = build(THEOREMS)
     R = rng('C11', 'sources')
     tmp = tempfile.mkdtemp(prefix='verif_c11_')
-    n_specs = 6 if tier == 'quick' else 30
+    n_specs = 6 if tier == 'quick' else 80
     try:
         for si in range(n_specs):
             rows = R.choice([2, 3, 4] if tier == 'quick' else [2, 4, 6, 8])
